@@ -78,6 +78,12 @@ func init() {
 		// maxFields < 0: "pair" mode: a valid ID field (string, api "t", json "id"), exactly
 		// -maxFields fields, field types from a short list (liteTypes)
 		lite := maxF < 0
+		// maxFields == -100: "micro" mode: a valid ID field and one string field whose api tag
+		// is absent, empty, "attr" or "rel" and whose json tag is absent or one symbolic byte
+		micro := maxF == -100
+		if micro {
+			maxF = -1
+		}
 		if lite {
 			desc.Fields = append(desc.Fields, SymField{Name: "ID", T: tbl[0], HasAPI: true, API: Str{S: "t"}, HasJSON: true, JSON: Str{S: "id"}})
 		}
@@ -118,13 +124,21 @@ func init() {
 			p := fmt.Sprintf("%s.f%d", tag, i)
 			var ft types.Type
 			if lite {
-				ft = tbl[liteTypes[choice(p+".type", len(liteTypes))]]
+				nt := len(liteTypes)
+				if micro {
+					nt = 1
+				}
+				ft = tbl[liteTypes[choice(p+".type", nt)]]
 			} else {
 				ft = tbl[choice(p+".type", len(tbl))]
 			}
 			f := SymField{Name: fmt.Sprintf("F%d", i), T: ft}
 			// api tag families
-			switch choice(p+".api", 8) {
+			napi, njson := 8, 4
+			if micro {
+				napi, njson = 4, 2
+			}
+			switch choice(p+".api", napi) {
 			case 0: // absent
 			case 1:
 				f.HasAPI = true // empty
@@ -144,7 +158,7 @@ func init() {
 				f.HasAPI = true
 				f.API = in.tagString(p+".any", 1, 3)
 			}
-			switch choice(p+".json", 4) { // absent, symbolic 1, "id", same as previous field
+			switch choice(p+".json", njson) { // absent, symbolic 1, "id", same as previous field
 			case 1:
 				f.HasJSON = true
 				f.JSON = in.tagString(p+".json.s", 1, 1)
@@ -162,7 +176,11 @@ func init() {
 		}
 		st := types.NewStruct(vars, nil)
 		val := in.zeroSym(desc)
-		if choice(tag+".byptr", 2) == 1 {
+		nptr := 2
+		if micro {
+			nptr = 1
+		}
+		if choice(tag+".byptr", nptr) == 1 {
 			cell := new(Value)
 			*cell = val
 			return Iface{T: types.NewPointer(st), V: &SymStructVal{Desc: desc, Ptr: cell}}
